@@ -170,6 +170,13 @@ fn exec_letters(w: &World, r: &mut rtlib::replica::MemReplica, label: &str, layo
             }
             acc.maximum("max_entries_superseded_by_one_step", superseded as u64);
         }
+        if w.label.starts_with("midfork") {
+            if let Letter::Committed(x) = l {
+                if before.iter().any(|&e| !w.comparable(e, *x)) {
+                    acc.count("steps_across_a_mid_segment_fork", 1);
+                }
+            }
+        }
         if class.ends_with("(full)") {
             acc.count("steps_on_full_cache", 1);
         }
@@ -239,6 +246,23 @@ fn run_setup(s: &Setup<'_>, acc: &mut Acc, states: &mut HashSet<u64>) {
             }
         }
     }
+}
+
+/// A chain of `chain` commands after init (ingested as ONE segment) with a side branch of
+/// `branch` commands forked from the interior chain command at position `at` (1-based; the branch
+/// is ingested afterwards, so its segment's prior lands in the middle of the chain's segment).
+fn mid_fork(chain: usize, at: usize, branch: usize, descending: bool) -> World {
+    use rtlib::dag::{Dag, Kind, Node};
+    let (rc, rb) = if descending { (0x60, 0x20) } else { (0x20, 0x60) };
+    let mut nodes = vec![Node { kind: Kind::Init, parents: vec![], rank: crate::world::RANK_INIT, prog: vec![Op::Append] }];
+    for j in 0..chain {
+        nodes.push(Node { kind: Kind::Basic(0), parents: vec![j], rank: rc, prog: vec![Op::Append] });
+    }
+    for j in 0..branch {
+        let parent = if j == 0 { at } else { nodes.len() - 1 };
+        nodes.push(Node { kind: Kind::Basic(0), parents: vec![parent], rank: rb, prog: vec![Op::Append] });
+    }
+    World::new(Dag { nodes, merge_rank: MergeRank::Low }, format!("midfork{chain}at{at}x{branch}{}", if descending { "desc" } else { "asc" }))
 }
 
 /// Merge-tree shapes over `k` branch tips (indices into the tip list).
@@ -366,6 +390,19 @@ pub fn run(args: &Args) {
         let fills = vec![first_level(PEER_HEAD_MAX - 1), first_level(PEER_HEAD_MAX)];
         worlds.push((w, fills, args.tier.pick(2, 3)));
     }
+    // chains ingested as one segment, forked in the middle by a branch ingested afterwards
+    let mut midforks = 0u64;
+    for chain in 4..=6usize {
+        for at in 1..chain {
+            for branch in 1..=3usize {
+                for descending in [false, true] {
+                    worlds.push((mid_fork(chain, at, branch, descending), vec![vec![]], depth));
+                    midforks += 1;
+                }
+            }
+        }
+    }
+    rep.set("mid_segment_fork_graphs", midforks);
     rep.set("max_sequence_length", depth as u64);
     rep.set("PEER_HEAD_MAX", PEER_HEAD_MAX as u64);
     let results: Vec<(Acc, u64)> = worlds
@@ -422,6 +459,7 @@ pub fn run(args: &Args) {
     if rep.violations().is_empty() {
         rep.require_nonzero("steps_on_full_cache");
         rep.require_nonzero("steps_superseding_3_or_more_entries");
+        rep.require_nonzero("steps_across_a_mid_segment_fork");
     }
     rep.finish()
 }
